@@ -7,6 +7,7 @@ import Pygom.OpsIntegrate
 import Pygom.OpsParams
 import Pygom.OpsStoch
 import Pygom.OpsSens
+import Pygom.OpsLoss
 
 namespace Pygom
 open Lean (Json)
@@ -17,6 +18,7 @@ def handlers : List (String → Json → Option (Except String Json)) :=
   , handleParams
   , handleStoch
   , handleSens
+  , handleLoss
   ]
 
 def handle (j : Json) : Json :=
